@@ -128,7 +128,69 @@ func eq(a, b Term) Term {
 	if a.S == b.S {
 		return tTrue
 	}
+	if na, ok := litInt(a); ok {
+		if nb, ok := litInt(b); ok && na != nb {
+			return tFalse
+		}
+	}
+	if (a.S == "true" && b.S == "false") || (a.S == "false" && b.S == "true") {
+		return tFalse
+	}
 	return mk(SBool, "=", a, b)
+}
+
+// litInt recognises small integer literals.
+func litInt(t Term) (int64, bool) {
+	s := t.S
+	neg := false
+	if strings.HasPrefix(s, "(- ") && strings.HasSuffix(s, ")") {
+		neg = true
+		s = s[3 : len(s)-1]
+	}
+	if len(s) == 0 || len(s) > 15 {
+		return 0, false
+	}
+	var n int64
+	for _, c := range s {
+		if c < '0' || c > '9' {
+			return 0, false
+		}
+		n = n*10 + int64(c-'0')
+	}
+	if neg {
+		n = -n
+	}
+	return n, true
+}
+
+// foldArith folds +,-,<,<=,>,>= on integer literals.
+func foldArith(op string, a, b Term) (Term, bool) {
+	na, ok1 := litInt(a)
+	nb, ok2 := litInt(b)
+	if !ok1 || !ok2 {
+		return Term{}, false
+	}
+	bl := func(v bool) Term {
+		if v {
+			return tTrue
+		}
+		return tFalse
+	}
+	switch op {
+	case "+":
+		return intLit(na + nb), true
+	case "-":
+		return intLit(na - nb), true
+	case "<":
+		return bl(na < nb), true
+	case "<=":
+		return bl(na <= nb), true
+	case ">":
+		return bl(na > nb), true
+	case ">=":
+		return bl(na >= nb), true
+	}
+	return Term{}, false
 }
 
 func ite(c, a, b Term) Term {
